@@ -430,6 +430,10 @@ class Model:
                 for a in list(e.args[1:]) + [k.value for k in e.keywords if k.arg == "flags"]:
                     flags |= self._fold_flags(a)
                 return ("regex", self.fold(mod, e.args[0]), flags)
+            if fn in ("frozenset", "set", "tuple", "list") and len(e.args) == 1 and not e.keywords:
+                v = self.fold(mod, e.args[0])
+                if isinstance(v, (str, list, tuple, set, frozenset)):
+                    return {"frozenset": frozenset, "set": set, "tuple": tuple, "list": list}[fn](v)
         raise AnalysisError(f"cannot fold {ast.unparse(e)[:60]} in {mod.name}")
 
     @staticmethod
